@@ -148,6 +148,18 @@ func c17Variants(valid []byte, quick bool) (out [][]c17File, labels []string) {
 	add("word+70000-blanks", one(append(append([]byte(comment+ver+"#5\n0x1"), bytes.Repeat([]byte(" "), 70000)...), []byte("\n"+wj)...)))
 	add("66000-tabs-then-text", one(append(bytes.Repeat([]byte("\t"), 66000), []byte("text")...)))
 	add("huge-comment-line+valid", one(append(append([]byte("# "), bytes.Repeat([]byte("L"), 8<<20)...), append([]byte("\n"), valid...)...)))
+	// comment lines longer than any buffer a loader may read them in, whose text from a buffer boundary on looks like a
+	// header or a word line: a comment is a comment to its end, wherever it is cut while reading
+	for _, B := range []int{4096, 65536, 131072} {
+		for _, tail := range []string{"0xffffffffffff", ver + "#9", "0x0", "zz", "# 0x5"} {
+			for d := -1; d <= 1; d++ {
+				long := "# " + strings.Repeat("L", B+d-2) + tail
+				add(fmt.Sprintf("long-comment(%d%+d)+%q/before-header", B, d, tail), one([]byte(long+"\n"+comment+ver+"#5\n"+wj)))
+				add(fmt.Sprintf("long-comment(%d%+d)+%q/before-words", B, d, tail), one([]byte(comment+ver+"#5\n"+long+"\n"+wj)))
+				add(fmt.Sprintf("long-comment(%d%+d)+%q/after-words", B, d, tail), one([]byte(comment+ver+"#5\n"+wj+"\n"+long+"\n")))
+			}
+		}
+	}
 	// several at once
 	add("garbage+valid", one([]byte("garbage")), one(valid))
 	add("valid+garbage", one(valid), one([]byte("garbage")))
@@ -192,10 +204,11 @@ func c17Units(tier string, seed int64) []Unit {
 		return nil
 	}
 	const shards = 48
-	for _, failing := range []bool{false, true} {
+	for _, mode := range []string{"false", "true", "skips-the-stored-case"} {
 		for sh := 0; sh < shards; sh++ {
-			failing, sh := failing, sh
-			units = append(units, Unit{Name: fmt.Sprintf("C17/failing-property=%v/shard=%d", failing, sh), Run: func(c *Ctx) {
+			mode, sh := mode, sh
+			failing := mode == "true"
+			units = append(units, Unit{Name: fmt.Sprintf("C17/failing-property=%v/shard=%d", mode, sh), Run: func(c *Ctx) {
 				valid := mkValid(7)
 				if len(valid) == 0 || len(valid) > 400 {
 					c.R.HarnessErr = fmt.Sprintf("could not produce a small valid fail file (%d bytes)", len(valid))
@@ -203,9 +216,20 @@ func c17Units(tier string, seed int64) []Unit {
 				}
 				variants, labels := c17Variants(valid, quick)
 				prog := progThreshold(100)
-				if !failing {
+				if mode == "false" {
 					prog = progThreshold(32767)
 					prog.Base = func(string, string) Beh { return BPass }
+				}
+				if mode == "skips-the-stored-case" {
+					// the bug was "fixed" by making the property skip the inputs it used to fail on: the stored case is now
+					// invalid, not failing - the file is stale and must be ignored like one whose case passes
+					base := prog.Base
+					prog.Base = func(ctx, d string) Beh {
+						if base(ctx, d) != BPass {
+							return BSkip
+						}
+						return BPass
+					}
 				}
 				sd := uint64(seed)*17 + 4242
 				cfg := Config{Checks: 4, Seed: sd, ShrinkMS: 3, NoFailFile: true, Name: name}
@@ -226,12 +250,12 @@ func c17Units(tier string, seed int64) []Unit {
 					c.R.States++
 					c.R.Transitions += int64(len(env.Invs))
 					v := log.Verdict()
-					replay := map[string]any{"variant": labels[vi], "failing_property": failing, "seed": sd}
+					replay := map[string]any{"variant": labels[vi], "failing_property": mode, "seed": sd}
 					if len(files) == 1 && files[0].special == "" && len(files[0].content) < 600 {
 						replay["file"] = string(files[0].content)
 					}
 					viol := func(clause, detail string) {
-						c.Violate(Violation{Sig: "C17 " + clause, Detail: fmt.Sprintf("%s\nvariant %s, failing property=%v\nTB: %s %q\nlog: %s", detail, labels[vi], failing, v.Class, trunc(v.ErrText, 200), trunc(log.TB.LogText(), 500)), Replay: replay})
+						c.Violate(Violation{Sig: "C17 " + clause, Detail: fmt.Sprintf("%s\nvariant %s, failing property=%v\nTB: %s %q\nlog: %s", detail, labels[vi], mode, v.Class, trunc(v.ErrText, 200), trunc(log.TB.LogText(), 500)), Replay: replay})
 					}
 					if log.Escaped != nil {
 						viol("escaped-panic", fmt.Sprintf("Check crashed: %v", log.Escaped))
@@ -262,9 +286,11 @@ func c17Units(tier string, seed int64) []Unit {
 							if f.special != "" || !strings.Contains(v.FailFile, fmt.Sprintf("-2020%04d-7.fail", i)) {
 								continue
 							}
-							ver, _, okp := refParseFailFile(f.content)
+							ver, refWords, okp := refParseFailFile(f.content)
 							if !okp || ver != rapid.VerifVersion() {
 								viol("malformed-file-used", fmt.Sprintf("file #%d is not a well-formed fail file of this version by the reference grammar (version %q, well-formed=%v), yet it was replayed and reported", i, ver, okp))
+							} else if len(env.Bufs) > 0 && !equalWords(env.Bufs[0], refWords) {
+								viol("file-replayed-with-other-words", fmt.Sprintf("file #%d holds the words %s by the reference grammar, the replay used %s", i, fmtWords(refWords), fmtWords(env.Bufs[0])))
 							}
 						}
 						continue
